@@ -233,3 +233,84 @@ def run(env, res, pid):
     env._cache["bfs_witnesses"] = witnesses
     return {"bfs_states": tot_states, "bfs_transitions": tot_trans, "bfs_max_steps": max_steps, "bfs_protocols": protos,
             "bfs_state_cap_per_protocol": cap}
+
+
+def witness_search(env, max_steps=7, max_len=4):
+    """goal-directed breadth-first search over simulated kind-level states only (no reference
+    lock-step): shortest choice sequence from the empty state to a state enabling each opcode."""
+    import rules_pvm
+    tr = rules_pvm.get_trans(env)
+    t2 = rules_pvm.table_T2(env)
+    witnesses = {}
+    stats = {"states": 0, "transitions": 0}
+    # kinds that no leaf distinguishes are merged (Int/Float/Bool/... behave alike for every guard)
+    sigs = {}
+    allk = set()
+    for o, lvs in tr.items():
+        if isinstance(lvs, Exception):
+            continue
+        for lf in lvs:
+            for c in list(lf.pre) + list(lf.post):
+                allk |= set(c["kinds"])
+    for k in allk:
+        sigs[k] = []
+    for o, lvs in tr.items():
+        if isinstance(lvs, Exception):
+            continue
+        for lf in lvs:
+            for c in lf.pre:
+                ks = c["kinds"]
+                for k in allk:
+                    sigs[k].append(k in ks)
+    rep = {}
+    bysig = {}
+    for k in sorted(allk):
+        s = tuple(sigs[k])
+        bysig.setdefault(s, k)
+        rep[k] = bysig[s]
+    stats["kind_classes"] = len(set(rep.values()))
+    for P in sorted(t2):
+        ops = [o for o in t2[P] if not isinstance(tr.get(o), Exception) and tr.get(o) is not None]
+        leaves = {}
+        for o in ops:
+            ls = []
+            for lf in tr[o]:
+                if P not in rules_pvm.applicable_protocols(lf, env):
+                    continue
+                if lf.flags.get("allow_ext_opcodes") is False or lf.flags.get("allow_buffer_opcodes") is False:
+                    continue
+                if lf.mutators_empty is False:
+                    continue
+                ls.append(lf)
+            leaves[o] = ls
+        want = set(ops)
+        start = ((), ())
+        seen = {start: None}
+        frontier = collections.deque([(start, 0)])
+        while frontier and want - {k for (p, k) in witnesses if p == P}:
+            (st, mem), depth = frontier.popleft()
+            if depth >= max_steps:
+                continue
+            for o in ops:
+                for lf in leaves[o]:
+                    if not lf.can_emit or not _match(lf, st, mem):
+                        continue
+                    stats["transitions"] += 1
+                    if (P, o) not in witnesses:
+                        path = []
+                        node = (st, mem)
+                        while seen.get(node) is not None:
+                            node, via = seen[node]
+                            path.append(via)
+                        witnesses[(P, o)] = list(reversed(path)) + [o]
+                    if lf.end is not None:
+                        continue
+                    for sst, smem in _succ(lf, st, mem):
+                        if len(sst) > max_len or len(smem) > 1:
+                            continue
+                        node = (tuple(rep.get(x, x) for x in sst), tuple(rep.get(x, x) for x in smem))
+                        if node not in seen:
+                            seen[node] = ((st, mem), o)
+                            frontier.append((node, depth + 1))
+        stats["states"] += len(seen)
+    return witnesses, stats
